@@ -20,6 +20,11 @@ pub fn to_listing(
                 line_idx,
                 None,
             );
+            // A statement is listed once, on the line it begins on (its span may extend over several lines)
+            let offsets = offsets
+                .into_iter()
+                .filter(|o| ctx.tree().code_map.look_up_span(o.span).begin.line == line_idx)
+                .collect_vec();
 
             let mut data = vec![];
             for offset in &offsets {
